@@ -4,6 +4,7 @@ package main
 
 import (
 	"io"
+	"strings"
 	"sync"
 
 	"github.com/hedzr/logg/slog"
@@ -24,6 +25,7 @@ type evLog struct {
 	n       int              // attempts so far
 	partial bool             // a failing write reports a positive byte count
 	short   bool             // … and the error is io.ErrShortWrite itself
+	slicey  bool             // the error value is of a slice type (errors of such types cannot be compared with ==)
 }
 
 func (l *evLog) take() []wev {
@@ -37,6 +39,11 @@ func (l *evLog) take() []wev {
 type failErr struct{}
 
 func (failErr) Error() string { return "injected write failure" }
+
+// failErrs: an error whose dynamic type is a slice (like scanner.ErrorList): comparing two of them panics
+type failErrs []string
+
+func (e failErrs) Error() string { return "injected write failures: " + strings.Join(e, "; ") }
 
 type plainW struct {
 	id  int
@@ -58,6 +65,9 @@ func (w *plainW) Write(p []byte) (int, error) {
 				return len(p) / 2, io.ErrShortWrite
 			}
 			return len(p) / 2, failErr{}
+		}
+		if w.log.slicey {
+			return 0, failErrs{"disk full", "quota"}
 		}
 		return 0, failErr{}
 	}
